@@ -160,6 +160,11 @@ def c18():
     return 1 if (v1 + v2) else 0
 
 
+@reg("C20")
+def c20():
+    return minthist.check("C20", http=True, malformed=3, probe="all", num=70 if tier() == "quick" else 1500)
+
+
 def replay(prop, path):
     with open(path) as f:
         rp = json.load(f)
